@@ -200,6 +200,7 @@ def run_case(c, F, femio):
         shape = tuple(c['shape'])
         mats = []
         for spec in c['mats']:
+            shape = tuple(spec.get('shape', c['shape']))
             rows = [e[0] for e in spec['entries']]
             cols = [e[1] for e in spec['entries']]
             vals = [fl(e[2]) for e in spec['entries']]
@@ -239,13 +240,15 @@ def run_case(c, F, femio):
         out = F.align_nnz(mats)
         r['inputs_unchanged'] = [snap(m) for m in mats] == s0
         res = []
+        shape = tuple(c['shape'])
         for o in out:
+            fmt_returned = o.format
             o = o.tocsr() if o.format != 'csr' else o
             ent = []
-            row_of = np.repeat(np.arange(shape[0], dtype=np.int64), np.diff(o.indptr))
+            row_of = np.repeat(np.arange(o.shape[0], dtype=np.int64), np.diff(o.indptr))
             for p in range(len(o.data)):            # storage order of the returned CSR
                 ent.append([int(row_of[p]), int(o.indices[p]), ex(o.data[p])])
-            res.append({'format': o.format, 'shape': list(o.shape), 'entries': ent,
+            res.append({'format': fmt_returned, 'shape': [int(x) for x in o.shape], 'entries': ent,
                         'index_dtype': str(o.indices.dtype),
                         'same_structure_as_first': bool(
                             np.array_equal(o.indices, out[0].indices) and
